@@ -34,24 +34,26 @@ Consume == l' = l + 1 /\ UNCHANGED <<tid, cf>>
 Silent == UNCHANGED <<tid, l, cf>>
 NoOp == UNCHANGED vars
 
-TBodyStart == IsEv("BodyStart") /\ WorkerTake(Ev.i) /\ H3 /\ Consume
+TBodyStart == IsEv("BodyStart") /\ WorkerTake(Ev.i) /\ H3 /\ H4 /\ Consume
 
+\* an accepted update is observed when it is put on the checkpoint queue; a rejected one when OrphanedChildException is built
 TCkpt == /\ IsEv("Ckpt")
          /\ LET i == Ev.i IN
             /\ wph[i] = "run" /\ BodyStep(i) /\ H3
             /\ IF Ev.rej
-                 THEN fout'[i] = "orphan"
-                 ELSE CASE Ev.k = "ctxStart" -> sub[i] = "ctxStart" /\ Ctx(i) \notin reg /\ sub'[i] = "atom"
-                        [] Ev.k = "start" -> sub[i] = "start" /\ sub'[i] = "fn"
-                        [] Ev.k = "succeed" -> sub[i] = "succeed" /\ fout'[i] = "none"
-                        [] Ev.k = "ctxEnd" -> sub[i] = "atom" /\ fout'[i] \in {"ok", "fail"}
-                        [] OTHER -> FALSE
+                 THEN i \notin chk /\ fout'[i] = "orphan"
+                 ELSE /\ i \in chk /\ i \notin chk'
+                      /\ CASE Ev.k = "ctxStart" -> sub[i] = "ctxStart"
+                            [] Ev.k = "start" -> sub[i] = "start"
+                            [] Ev.k = "succeed" -> sub[i] = "succeed"
+                            [] Ev.k = "ctxEnd" -> sub[i] = "atom" /\ fout'[i] \in {"ok", "fail"}
+                            [] OTHER -> FALSE
          /\ Consume
 
 TBodyEnd == /\ IsEv("BodyEnd")
             /\ LET i == Ev.i IN
                IF Ev.out \in {"susp", "tsusp", "bte"}
-                 THEN wph[i] = "run" /\ sub[i] = "atom" /\ Atom(i) = Ev.out /\ BodyStep(i) /\ H3
+                 THEN wph[i] = "run" /\ sub[i] = "atom" /\ Atom(i) = Ev.out /\ i \notin chk /\ BodyStep(i) /\ H3
                  ELSE fout[i] = Ev.out /\ wph[i] # "run" /\ NoOp
             /\ Consume
 
@@ -59,34 +61,35 @@ TBodyEnd == /\ IsEv("BodyEnd")
 CbSnapW(i) == snap' = [snap EXCEPT ![i] = {j \in Br : j # i /\ wph[j] = "run"}] /\ UNCHANGED <<suspSnap, resub>>
 CbSnapS(i) == suspSnap' = (IF suspExc' # suspExc THEN snap[i] ELSE suspSnap) /\ UNCHANGED <<snap, resub>>
 TEvSet == /\ IsEv("EvSet") /\ ~event
-          /\ \E i \in Br : \/ (CbWrite(i) /\ CbSnapW(i)) \/ (CbDecide(i) /\ H3) \/ (CbScan(i) /\ CbSnapS(i))
+          /\ \E i \in Br : \/ (CbWrite(i) /\ CbSnapW(i) /\ H4) \/ (CbDecide(i) /\ H3 /\ H4) \/ (CbScan(i) /\ CbSnapS(i) /\ H4)
           /\ event' /\ suspExc' = Ev.susp
           /\ Consume
 
 TResubmit == IsEv("Resubmit") /\ TimerStep(Ev.i) /\ Consume
 
-TBuild == /\ IsEv("Build") /\ MainBuild /\ H3
+TBuild == /\ IsEv("Build") /\ MainBuild /\ H3 /\ H4
           /\ Len(items') = Len(Ev.items) /\ (\A k \in 1..Len(Ev.items) : items'[k] = Ev.items[k]) /\ reason' = Ev.reason
           /\ Consume
 
 TExReturn == /\ IsEv("ExReturn")
              /\ \/ (Ev.how = "returned" /\ mpc = "ParentCkpt" /\ NoOp)
-                \/ (Ev.how = "suspended" /\ MainRaiseSuspend /\ H3)
+                \/ (Ev.how = "suspended" /\ MainRaiseSuspend /\ H3 /\ H4)
                 \/ (Ev.how = "raised" /\ mpc = "Returned" /\ result = "raised" /\ NoOp)
              /\ Consume
 
-TParentCkpt == IsEv("ParentCkpt") /\ MainParentCkpt /\ H3 /\ Consume
+TParentCkpt == IsEv("ParentCkpt") /\ MainParentCkpt /\ H3 /\ H4 /\ Consume
 
 SilentStep ==
   /\ l <= Len(Tr)
-  /\ \/ ((MainSubmit \/ MainWake \/ MainCancel) /\ H3)
+  /\ \/ ((MainSubmit \/ MainWake \/ MainCancel) /\ H3 /\ H4)
      \/ \E i \in Br :
-          \/ (wph[i] = "run" /\ BodyStep(i) /\ H3
-              /\ (sub[i] = "fn" \/ (sub[i] = "atom" /\ Atom(i) = "step") \/ (sub[i] = "ctxStart" /\ Ctx(i) \in reg /\ fout'[i] = "none")))
+          \* body steps without an observable effect: the orphan check that passes, the function, atom selection
+          \/ (wph[i] = "run" /\ BodyStep(i) /\ H3 /\ fout'[i] = fout[i] /\ (i \in chk' \/ i \notin chk) /\ reg' = reg
+              /\ ~(i \in chk /\ i \notin chk'))
           \* done-callback steps that do not set the completion event for the first time
-          \/ (CbWrite(i) /\ CbSnapW(i) /\ event' = event)
-          \/ (CbDecide(i) /\ H3 /\ event' = event)
-          \/ (CbScan(i) /\ CbSnapS(i) /\ event' = event)
+          \/ (CbWrite(i) /\ CbSnapW(i) /\ H4 /\ event' = event)
+          \/ (CbDecide(i) /\ H3 /\ H4 /\ event' = event)
+          \/ (CbScan(i) /\ CbSnapS(i) /\ H4 /\ event' = event)
   /\ Silent
 
 TraceDone == l = Len(Tr) + 1 /\ UNCHANGED tvars
